@@ -95,8 +95,11 @@ fn gen_frame(r: &mut Rng, region: RegionId) -> FrameSpec {
                     macs.push(MacSpec::DevStatus);
                 }
                 macs.push(MacSpec::RxTimingSetup { del: 3 });
-                if r.chance(1, 2) {
-                    macs.push(MacSpec::DlChannel { idx: 0, freq: freq_in_band(r, region) });
+                match r.below(4) {
+                    0 | 1 => macs.push(MacSpec::DlChannel { idx: 0, freq: freq_in_band(r, region) }),
+                    // 13 bytes queued and a 3-byte answer that no longer fits: the queue is cut short at 13
+                    2 => macs.push(MacSpec::DevStatus),
+                    _ => {}
                 }
             }
             let k = if full { 0 } else { r.below(4) };
